@@ -161,6 +161,10 @@ func (b *bitstream) Next() error {
 	if !b.stack.empty() {
 		cur := b.stack.peek()
 		if b.pos == cur.end {
+			if cur.code == bitcodeStruct && b.state == bssBeforeValue {
+				// A field name was read and the struct ends before its value.
+				return &SyntaxError{"field name without a value at the end of a struct", b.pos}
+			}
 			b.code = bitcodeEOF
 			return nil
 		}
